@@ -18,9 +18,16 @@ PID = "C01"
 WHAT = {"D01_wscale_no_payload": "a TCP window-scale option with length byte 2 (no payload) or cut off by the end of the option area panics the TCP analyzer (index out of bounds in the option walk)"}
 
 
-def mutations(seed, rng, tier):
+def mutations(seed, rng, tier, full=False):
     out = []
     n = len(seed)
+    if full:                                 # every value of every byte (length, count, flag and type fields included)
+        for off in range(n):
+            for val in range(256):
+                if seed[off] != val:
+                    m = bytearray(seed)
+                    m[off] = val
+                    out.append(bytes(m))
     for k in range(n):                       # truncations
         out.append(seed[:k])
     step = 1 if tier == "thorough" or n < 200 else 3
@@ -97,8 +104,13 @@ def run(tier, v):
     K = set(vlib.known_devs(PID))
     rng = random.Random(vlib.seed())
     # ---- (a) option encodings from TLC
-    optframes = []
-    r = vlib.tlc("MC_C01", pid=PID, workers=8, tag_sink=lambda tag, o: optframes.append(bytes(o["f"])), env={"VERIF_TIER": tier}, timeout=3000, heap="10g", coverage=False)
+    optframes, h2shapes, tlsshapes = [], [], []
+    sink = {"REPLAY": lambda o: optframes.append(bytes(o["f"])), "H2": lambda o: h2shapes.append(bytes(o["b"])), "TLS": lambda o: tlsshapes.append(bytes(o["b"]))}
+    r = vlib.tlc("MC_C01", pid=PID, workers=8, tags=("REPLAY", "H2", "TLS"), tag_sink=lambda tag, o: sink[tag](o), env={"VERIF_TIER": tier}, timeout=3000, heap="10g", coverage=False)
+    if not (optframes and h2shapes and tlsshapes):
+        raise vlib.ToolError("MC_C01 produced no inputs for one family")
+    h2shapes = sorted(set(h2shapes))
+    tlsshapes = sorted(set(tlsshapes))
     # ---- (b) seeds from the specifications' Wire operators and from the repository's captures
     seeds = {"frame": [], "hello": [], "h1req": [], "h1resp": [], "h2": []}
     tr = c10.build_traces(rng, 2)
@@ -119,11 +131,26 @@ def run(tier, v):
         seeds["frame"] += fr if tier == "thorough" else fr[:3]
     inputs = {k: [] for k in ("frame", "hello", "h1req", "h1resp", "h2")}
     for kind, ss in seeds.items():
-        for s in ss:
-            inputs[kind] += mutations(s, rng, tier) + [s]
+        for k, s in enumerate(ss):
+            # every byte value at every offset: always for the parser-level seeds, for the spec-rendered frames in thorough
+            full = (kind != "frame" and len(s) <= 600) or (tier == "thorough" and kind == "frame" and k < 6)
+            inputs[kind] += mutations(s, rng, tier, full) + [s]
     inputs["frame"] += optframes
+    # the structured malformed spaces of Totality.tla: as parser input and as the payload of a segment of a tracked connection
+    inputs["h2"] += h2shapes
+    inputs["hello"] += tlsshapes
+    step = 1 if tier == "thorough" else 4
+    conns = []
+    for i, b in enumerate(h2shapes[::step]):     # a tracked connection per shape: SYN, the shape from the client, the shape from the server
+        cp = 1025 + (i % 60000)
+        ca = (10, 3, 1 + i // 60000, 1)
+        conns.append([c10.frame(ca, (10, 3, 0, 2), cp, 80, 100, 0, 0x02, opts=b"\x02\x04\x05\xb4", ipid=i & 0xffff), c10.frame(ca, (10, 3, 0, 2), cp, 80, 101, 1, 0x18, b, ipid=i & 0xffff),
+                      c10.frame((10, 3, 0, 2), ca, 80, cp, 1, 101 + len(b), 0x18, b, ipid=i & 0xffff)])
+    inputs["frame"] += [c10.frame((10, 3, 2, 1), (10, 3, 0, 2), 41000 + (i % 20000), 443, 1, 1, 0x18, b, ipid=i & 0xffff) for i, b in enumerate(tlsshapes)]
     for k in inputs:
         rng.shuffle(inputs[k])
+    rng.shuffle(conns)
+    inputs["frame"] += [f for c in conns for f in c]          # kept in order within a connection
     # ---- probes (client 10.99.0.1 is re-addressed by the harness for every round)
     cip, sip = (10, 99, 0, 1), (10, 98, 0, 1)
     synopts = b"\x02\x04\x05\xb4\x04\x02\x08\x0a\x00\x00\x10\x00\x00\x00\x00\x00\x01\x03\x03\x07"
@@ -202,8 +229,8 @@ def run(tier, v):
             v.violation({"entry": "pool " + pl["crate"], "workers": pl["workers"], "observed": "the probe connection dispatched after the mutated frames produced no result (worker dead or state poisoned)"})
     return v.finish("exploration", {
         "evaluations": n_inputs, "distinct_nontrivial": n_ok,
-        "rule": "inputs: %d TCP option encodings from MC_C01, all truncations / bit flips / byte overwrites of %d seeds, database text mutations; entry points tcp, http, tls, unified, filter, hash, reader, extractor, one-shot parsers, database loader, pools; "
-                "a probe every 50 inputs; non-trivial = calls that returned a value (%d returned an error value)" % (len(optframes), sum(len(s) for s in seeds.values()), n_err),
+        "rule": "inputs: %d TCP option encodings, %d HTTP/2 frame shapes (type x flags x stream x length x first byte x declared-length error) and %d ClientHello length-field errors from MC_C01, all truncations / bit flips / byte overwrites (every value for parser-level seeds) of %d seeds, database text mutations; entry points tcp, http, tls, unified, filter, hash, reader, extractor, one-shot parsers, database loader, pools; "
+                "a probe every 50 inputs; non-trivial = calls that returned a value (%d returned an error value)" % (len(optframes), len(h2shapes), len(tlsshapes), sum(len(s) for s in seeds.values()), n_err),
         "samples": [{"entry": "tcp", "input": inputs["frame"][0].hex()}, {"entry": "db", "input": lines[-1]["inputs"][0][:200]}],
         "states": r.distinct, "transitions": r.generated, "traces_validated_against_impl": len(lines),
     }, ["panics are caught with catch_unwind in the harness (built with overflow checks on); hangs by a 5 s watchdog", "probe connections use fresh endpoints for every round; their reported endpoints are masked in the comparison",
